@@ -246,6 +246,7 @@ func (c *FnCtx) expandSlots(sc *slotClause) ([]*clause, error) {
 		}
 		body = strings.ReplaceAll(body, "$x", x)
 		body = strings.ReplaceAll(body, "$K", typText)
+		body = strings.ReplaceAll(body, "$N", kind)
 		src := fmt.Sprintf("%s(%s) ==> (%s)", quant, hyp, body)
 		if sc.instance {
 			// instance hypothesis: si becomes a ghost of the instance
